@@ -220,6 +220,49 @@ func sliceAliases() *slice {
 	return &slice{name: "aliases", g: NewGrammar(rules), tops: []NT{nt(TBool)}, modes: lib.AllModes, maxN: map[string]int{"quick": 5, "thorough": 6}}
 }
 
+// kinds: arithmetic, comparison and membership over every numeric kind of the environment, with boundary
+// values (2^32, MaxInt64, MinInt64, 2^53, 2^24 as float32); result kinds follow the VM's promotion order.
+func sliceKinds() *slice {
+	rules := []*Rule{
+		Var("I", TInt), Var("H", TInt), Var("F", TFloat), Var("HF", TFloat), Var("I8", TI8), Var("U8", TU8), Var("I64", TI64), Var("F32", TF32), Var("U", TU),
+		Lit("1", TInt, 1), Lit("2", TInt, 2), Lit("0.5", TFloat, 0.5), Lit("[1, 2]", TIntArr, []int{1, 2}), Lit("[0, 200]", TIntArr, []int{0, 200}),
+		Var("B", TBool), CondMixed(TU8, TInt, TAny), CondMixed(TI8, TFloat, TAny),
+	}
+	nums := []Ty{TInt, TFloat, TI8, TU8, TI64, TF32, TU}
+	rank := map[Ty]int{TU: 0, TU8: 1, TInt: 5, TI8: 6, TI64: 9, TF32: 10, TFloat: 11}
+	for _, a := range nums {
+		rules = append(rules, Un("-", a, a), Bin("in", a, TIntArr, TBool))
+		for _, b := range nums {
+			if !(a == TInt || b == TInt || a == b) {
+				continue
+			}
+			out := a
+			if rank[b] > rank[a] {
+				out = b
+			}
+			rules = append(rules, Bin("+", a, b, out), Bin("*", a, b, out), Bin("**", a, b, TFloat), Bin("<", a, b, TBool), Bin("==", a, b, TBool))
+		}
+	}
+	rules = append(rules, Bin("==", TAny, TInt, TBool), Bin("in", TAny, TIntArr, TBool))
+	return &slice{name: "kinds", g: NewGrammar(rules), tops: []NT{nt(TBool), nt(TInt), nt(TFloat), nt(TI8), nt(TU8), nt(TI64), nt(TF32), nt(TU)},
+		modes: lib.AllModes, maxN: map[string]int{"quick": 5, "thorough": 6}}
+}
+
+// calls: the same name called with different argument counts in one expression (variadic functions, an
+// environment function and a method of the same name), and map literals with computed keys.
+func sliceCalls() *slice {
+	rules := []*Rule{
+		Var("I", TInt), Lit("1", TInt, 1), Var("S", TStr), Var("O", TObj),
+		Call("Sum", TInt), Call("Sum", TInt, TInt), Call("Sum", TInt, TInt, TInt), Call("Sum", TInt, TInt, TInt, TInt),
+		Call("Pack", TAny), Call("Pack", TAny, TInt), Call("Pack", TAny, TStr, TInt),
+		Call("Plus", TInt, TInt, TInt), Method(TObj, "Plus", TInt, false, TInt), Call("Get", TInt, TInt), Method(TObj, "Get", TInt, false),
+		Bin("+", TInt, TInt, TInt), ArrAs(TAnyArr, TInt, TInt), ArrAs(TAnyArr, TAny, TAny), ArrAs(TAnyArr, TAnyMap, TInt),
+		MapComputed([]string{"*"}, TInt), MapComputed([]string{"zq", "*"}, TInt, TInt), MapComputed([]string{"*", "zq"}, TInt, TInt), MapLit([]string{"zq"}, TInt),
+		Len(TAnyMap),
+	}
+	return &slice{name: "calls", g: NewGrammar(rules), tops: []NT{nt(TInt), nt(TAnyArr), nt(TAnyMap)}, modes: lib.AllModes, maxN: map[string]int{"quick": 6, "thorough": 7}}
+}
+
 // elvis: the undocumented `a ?: b` form in every operand position (bytecode shape only; it has no reference semantics).
 func sliceElvis() *slice {
 	rules := []*Rule{
